@@ -45,6 +45,10 @@ class _Instr:
             raise ValueError("constructor of %s fails as configured" % name)
         self.sim_init_done = True
 
+    def __repr__(self):
+        # like many real pools and controllers: built from what __init__ has set up
+        return "<%s %s>" % (type(self).__name__, self.sim_name)
+
     def _sim_fail(self):
         kind = self.sim_fail_kind or "LookupError"
         h = _h()
